@@ -18,11 +18,16 @@ SUB_BODY = 'SELECT "x" FROM "u"'
 # ----------------------------------------------------------------------------------------------
 # spec -> pypika
 # ----------------------------------------------------------------------------------------------
+RESOLVER = {}   # "#i" table names -> source objects of the enclosing statement (set by harness/queries_family.py)
+
+
 def mk_table(t):
     from pypika import Table
     if t is None:
         return None
     name, schema, alias = t
+    if name.startswith("#"):
+        return RESOLVER[int(name[1:])]
     tb = Table(name, schema=(tuple(schema) if schema else None))
     if alias is not None:
         tb = tb.as_(alias)
